@@ -13,6 +13,8 @@ mod gen;
 mod lex;
 #[path = "c10/oracle.rs"]
 mod oracle;
+#[path = "c10/syn.rs"]
+mod syn;
 
 use gluon::RootedThread;
 use gv::{Args, Out};
@@ -691,6 +693,190 @@ fn run_file(r: &mut Runner, fi: usize, path: &std::path::Path, variant: u64, per
     }
 }
 
+
+// ---------------------------------------------------------------------------------------
+// Wave 2: syntax-class families (c10/syn.rs)
+
+/// Does the text typecheck (default VM, implicit prelude)? A panic counts as "no".
+fn tc_ok(vm: &RootedThread, src: &str) -> bool {
+    use gluon::ThreadExt;
+    use std::sync::atomic::{AtomicU64, Ordering};
+    static N: AtomicU64 = AtomicU64::new(0);
+    let name = format!("c10_tc_{}", N.fetch_add(1, Ordering::Relaxed));
+    matches!(gv::catch(|| vm.typecheck_str(&name, src, None).is_ok()), Ok(true))
+}
+
+/// One text of a syntax family: the full property (AST incl. types and kinds, comments,
+/// literals, idempotence) and the clause "the formatted program typechecks iff the original
+/// did". Returns (inside the precondition, property held).
+fn run_syn_text(r: &mut Runner, origin: &str, text: &str, widths: bool) -> (bool, bool) {
+    let toks = match lex::tokenize(text) {
+        Some(t) => t,
+        None => {
+            r.out.count("oracle:skip:oracle-tokenizer");
+            return (false, false);
+        }
+    };
+    r.out.count("syn:inputs");
+    let (inside, held) = r.run2(origin, text, &toks, &[], false);
+    if !inside {
+        r.out.count(&format!("syn:rejected-by-parser:{}", origin));
+        return (false, false);
+    }
+    if let oracle::Fmt::Ok(f) = oracle::format(&r.vm, text) {
+        if oracle::ast(&f).is_ok() {
+            let (a, b) = (tc_ok(&r.vm, text), tc_ok(&r.vm, &f));
+            r.out.count("syn:typecheck-compared");
+            if a != b {
+                let dir = if a { "ok-to-err" } else { "err-to-ok" };
+                let fp = format!("typecheck-changed:{}:{}", origin, dir);
+                let what = format!(
+                    "the original {} but the formatted program {} | input {:?} -> output {:?}",
+                    if a { "typechecks" } else { "does not typecheck" },
+                    if b { "typechecks" } else { "does not typecheck" },
+                    text.chars().take(200).collect::<String>(),
+                    f.chars().take(200).collect::<String>()
+                );
+                r.emit(&fp, &what, text, origin, None);
+            } else {
+                r.out.count(if a { "syn:typechecks-before-and-after" } else { "syn:ill-typed-before-and-after" });
+                r.out.class(format!("syn-pass:{}:{}", origin, if a { "typed" } else { "untyped" }));
+            }
+        }
+    }
+    if held {
+        r.out.count("syn:held");
+        if widths {
+            r.run_widths(origin, text);
+        }
+    }
+    (true, held)
+}
+
+/// What the REAL formatter prints for the parameter `(p : k)` of `type T (p : k) = Int`, and
+/// whether the real parser reads the formatted program back to the same AST: the payload of
+/// the `kindfmt` correspondence case (the Lean model `KindSyntax.paramText` / `parseParam`
+/// answers the same question).
+fn kindfmt_payload(vm: &RootedThread, k: &syn::Kd) -> String {
+    let src = format!("type T (p : {}) = Int\n()\n", k.text());
+    match oracle::format(vm, &src) {
+        oracle::Fmt::Ok(f) => {
+            let first = f.lines().next().unwrap_or("");
+            match first.strip_prefix("type T ").and_then(|x| x.strip_suffix(" = Int")) {
+                Some(param) => {
+                    let same = match (oracle::ast(&src), oracle::ast(&f)) {
+                        (Ok(a), Ok(b)) => a == b,
+                        _ => false,
+                    };
+                    format!("(k {} {})", gv::quote(param), if same { "same" } else { "changed" })
+                }
+                None => format!("(k-unexpected {})", gv::quote(first)),
+            }
+        }
+        oracle::Fmt::Refused(_) => "refused".into(),
+        oracle::Fmt::Panic(_) => "panic".into(),
+    }
+}
+
+const KIND_POOL: u64 = 2000;
+
+/// Input class of a kind program. `wide`: some source line is longer than 80 columns, so the
+/// `type … =` header may not fit the formatter's 100 columns (the formatted header is never
+/// more than 2 columns per parameter longer than the source's); a program that is not `wide`
+/// is always laid out flat at the default width.
+fn kind_origin(class: &str, explicit_type: bool, text: &str) -> String {
+    let wide = text.lines().any(|l| l.chars().count() > 80);
+    format!("syn:kind{}{}:{}", if explicit_type { "-explicit-Type" } else { "" }, if wide { "-wide" } else { "" }, class)
+}
+
+/// Kind `k`, program shape `shape`.
+fn run_kind(r: &mut Runner, k: &syn::Kd, shape: u64, widths: bool) {
+    let (class, text, et) = syn::kind_program(k, shape);
+    r.out.count(&format!("syn:kind-shape:{}", class));
+    r.out.count(&format!("syn:kind-depth:{}", k.depth()));
+    run_syn_text(r, &kind_origin(class, et, &text), &text, widths);
+}
+
+/// Random deeper kind number `ki` of the fixed pool (depth ≤ 4), all shapes selected by `ki`.
+fn run_kind_pool(r: &mut Runner, ki: u64, thorough: bool) {
+    let mut rng = gv::rng::Rng::new(ki, 6060);
+    let k = syn::random_kind(&mut rng, 4);
+    // the model prints the flat layout: compared where the header fits the line
+    if k.text().chars().count() <= 60 {
+        let payload = kindfmt_payload(&r.vm, &k);
+        r.out.case(&format!("kindfmt {}", k.sexp()), &payload);
+        r.out.class(format!("kindfmt:depth{}:{}", k.depth(), payload.ends_with("same)")));
+    } else {
+        r.out.count("kindfmt:skipped(header-does-not-fit-the-line)");
+    }
+    let n = if thorough { syn::KIND_SHAPES } else { 2 };
+    for j in 0..n {
+        run_kind(r, &k, (ki + j * 4) % syn::KIND_SHAPES, thorough && j == 0);
+    }
+}
+
+/// The exhaustive kind family: every kind of arrow depth ≤ 2 over {Type, Row, _} (147).
+fn run_kinds_exhaustive(r: &mut Runner, seed: u64, thorough: bool, sweep: bool) {
+    let kinds = syn::all_kinds(2);
+    r.out.stats.insert("syn_kinds_enumerated".into(), (kinds.len() as u64).into());
+    for (i, k) in kinds.iter().enumerate() {
+        let payload = kindfmt_payload(&r.vm, k);
+        r.out.case(&format!("kindfmt {}", k.sexp()), &payload);
+        if thorough || sweep {
+            for shape in 0..syn::KIND_SHAPES {
+                run_kind(r, k, shape, sweep || shape == 1 || shape == 7);
+            }
+        } else {
+            run_kind(r, k, 0, false);
+            run_kind(r, k, 1, (i as u64 + seed) % 8 == 0);
+            let s1 = 2 + (i as u64 + seed) % 7;
+            run_kind(r, k, s1, s1 == 7 && (i as u64 + seed / 7) % 4 == 0);
+        }
+    }
+}
+
+/// Stable name of declaration `i`: `<class>.<ordinal within the class>`.
+fn decl_slug(i: usize) -> String {
+    let c = syn::DECLS[i].0;
+    let ord = syn::DECLS[..i].iter().filter(|d| d.0 == c).count();
+    format!("{}.{}", c, ord)
+}
+
+/// Every declaration of the production-class table alone (exhaustive); returns which ones
+/// satisfy the property (only those are combined into pairs).
+fn run_syn_singles(r: &mut Runner, seed: u64, all_bodies: bool) -> Vec<bool> {
+    let mut ok = vec![];
+    for i in 0..syn::DECLS.len() {
+        let origin = format!("syn:{}", decl_slug(i));
+        let bodies: Vec<usize> = if all_bodies { (0..syn::BODIES.len()).collect() } else { vec![0, 1 + (i + seed as usize) % (syn::BODIES.len() - 1)] };
+        let mut all = true;
+        for (n, j) in bodies.iter().enumerate() {
+            let (class, text) = syn::single(i, *j);
+            r.out.count(&format!("syn:class:{}", class));
+            let (inside, held) = run_syn_text(r, &origin, &text, n == 0);
+            if !inside || !held {
+                all = false;
+            }
+            if !held {
+                break;
+            }
+        }
+        ok.push(all);
+    }
+    ok
+}
+
+fn run_syn_pair(r: &mut Runner, si: u64, ok: &[bool]) {
+    let n = syn::DECLS.len() as u64;
+    let (a, b) = ((si % n) as usize, ((si / n) % n) as usize);
+    if !ok[a] || !ok[b] {
+        r.out.count("syn:pair-skipped(a-declaration-fails-alone)");
+        return;
+    }
+    let (class, text) = syn::program(si);
+    run_syn_text(r, &format!("syn-pair:{}", class), &text, false);
+}
+
 fn main() {
     gv::quiet_panics();
     let args = Args::parse();
@@ -774,6 +960,53 @@ fn main() {
         }
     }
 
+
+    // ---- wave 2: syntax-class families (kinds exhaustively; every production class) --------
+    let sweep_syn = args.extra.iter().any(|a| a == "--sweep-syn");
+    let sweep_other = args.extra.iter().any(|a| a == "--sweep-programs" || a == "--sweep-files");
+    // `--sweep-syn A B` with A > 0 continues a pair sweep: the kind families are not repeated
+    let pairs_only = match args.extra.iter().position(|a| a == "--sweep-syn") {
+        Some(i) => args.extra.get(i + 1).and_then(|x| x.parse::<u64>().ok()).map_or(false, |a| a > 0),
+        None => false,
+    };
+    if !sweep_other {
+        if !pairs_only {
+            run_kinds_exhaustive(&mut r, args.seed, thorough, sweep_syn);
+        }
+        let mut krng = gv::rng::Rng::new(args.seed, 6061);
+        if pairs_only {
+        } else if sweep_syn {
+            for ki in 0..KIND_POOL {
+                run_kind_pool(&mut r, ki, true);
+            }
+        } else {
+            for _ in 0..(if thorough { 400 } else { 40 }) {
+                let ki = krng.below(KIND_POOL);
+                run_kind_pool(&mut r, ki, thorough);
+            }
+        }
+        let ok = run_syn_singles(&mut r, args.seed, thorough || sweep_syn);
+        if sweep_syn {
+            let (a, b) = match args.extra.iter().position(|a| a == "--sweep-syn") {
+                Some(i) if args.extra.len() > i + 2 => (args.extra[i + 1].parse().unwrap_or(0), args.extra[i + 2].parse().unwrap_or(syn::pool_size())),
+                _ => (0, syn::pool_size()),
+            };
+            for si in a..b.min(syn::pool_size()) {
+                run_syn_pair(&mut r, si, &ok);
+            }
+        } else {
+            for _ in 0..(if thorough { 1500 } else { 120 }) {
+                let si = krng.below(syn::pool_size());
+                run_syn_pair(&mut r, si, &ok);
+            }
+        }
+        r.out.stats.insert("syn_pair_pool_size".into(), syn::pool_size().into());
+        r.out.stats.insert("syn_declarations".into(), (syn::DECLS.len() as u64).into());
+    }
+    if sweep_syn {
+        out.finish();
+        return;
+    }
     // ---- generated programs ------------------------------------------------------------
     // The programs come from a fixed pool: program `i` and everything derived from it (layouts,
     // perturbations, comment placements) is a function of `i` alone. The run seed only selects
